@@ -169,9 +169,27 @@ def check_saving(ctx):
     ctx.check(ok, rule, "Saving|rejects-optimal-baseline", cls.methods["__init__"].loc(), "Saving(cost with param=None) raises ValueError in the constructor", found=[(p.outcome, p.exc.exc_name if p.exc else "") for p in paths2])
 
 
+def _clone_param(cost, clone):
+    """the parameter symbol an abstract clone carries: clone() renames param(<cost>) to param(<clone>)"""
+    pv = cost.fields["param"].nf
+    a = single_atom(pv)
+    if a is not None and a.kind == "sym" and str(a.args[0]).endswith(f"({cost.key})"):
+        return sym(str(a.args[0])[: -len(cost.key) - 2] + f"({clone.key})")
+    return pv
+
+
 def check_local(ctx):
     rule = "C06.a NF-ADAPTER"
     declare_cut_order(4)
+    # the pooled-surroundings cost is the SAME cost: an owned clone that keeps the cost's fixed parameter (a clone reset
+    # to param=None would re-optimise the surroundings while the outer and inner costs use the fixed parameter)
+    cls_f, ex_f, paths_f, st_f = _adapter(ctx, ("skchange.anomaly_scores", "LocalAnomalyScore"), 4, "fixed")
+    sub_f = st_f["obj"].fields.get("_any_subset_cost") if "obj" in st_f else None
+    cost_f = st_f.get("cost")
+    # the surroundings cost may be held under another attribute name: any owned clone of the cost among the fields
+    clones = [v_ for v_ in st_f["obj"].fields.values() if isinstance(v_, ObjV) and v_.meta.get("clone_of") is cost_f] if "obj" in st_f else []
+    okp = bool(clones) and all(isinstance(c_.fields.get("param"), Num) and isinstance(cost_f.fields.get("param"), Num) and c_.fields["param"].nf is not None and nf_equal(c_.fields["param"].nf, _clone_param(cost_f, c_)) for c_ in clones)
+    ctx.check(okp, "C06.a OWNED-CLONE", "LocalAnomalyScore|clone-keeps-param", cls_f.methods["__init__"].loc() if "__init__" in cls_f.methods else cls_f.module.relpath, "the clone used for the pooled surroundings keeps the cost's fixed parameter", found=[valkey(c_.fields.get("param")) for c_ in clones] or "no owned clone of the cost", expected="param of the cost passed in")
     cls, ex, paths, st = _adapter(ctx, ("skchange.anomaly_scores", "LocalAnomalyScore"), 4, "none")
     loc = cls.methods["_evaluate"].loc() if "_evaluate" in cls.methods else cls.module.relpath
     rets = returns(paths)
